@@ -34,6 +34,32 @@ def workdir(name):
 _built = {}
 
 
+def source_state():
+    """identifies the content of /repo's working tree (commit + uncommitted changes + untracked sources)"""
+    def git(*a):
+        return subprocess.run(["git", "-C", REPO] + list(a), capture_output=True, text=True).stdout
+    return hashlib.sha256((git("rev-parse", "HEAD") + git("diff", "HEAD") + git("status", "--porcelain")).encode()).hexdigest()
+
+
+def force_rebuild_if_sources_changed(tag):
+    """cargo decides by modification times whether a crate is fresh; a change applied and reverted within the clock's
+    granularity of a previous build can be missed.  The content of /repo's working tree decides here: when it differs
+    from what the last build of this flavour saw, the crate roots are touched (time stamp only) so that cargo rebuilds."""
+    mark = os.path.join(HARNESS, ".built-from-%s" % tag)
+    now = source_state()
+    try:
+        old = open(mark).read()
+    except OSError:
+        old = ""
+    if old != now:
+        for rel in ("runtime/src/lib.rs", "compiler/src/lib.rs", "rinklecate/src/main.rs"):
+            path = os.path.join(REPO, rel)
+            if os.path.exists(path):
+                os.utime(path, None)
+        with open(mark, "w") as f:
+            f.write(now)
+
+
 def build(flavour="debug"):
     """flavours: debug, release, stream (debug + stream-json-parser, own target dir)"""
     if flavour in _built:
@@ -41,6 +67,7 @@ def build(flavour="debug"):
     env = dict(os.environ, CARGO_NET_OFFLINE="true")
     cmd = ["cargo", "build", "--offline", "--quiet", "--bin", "inkdrive"]
     tdir = "target"
+    force_rebuild_if_sources_changed(flavour)
     if flavour == "release":
         cmd.append("--release")
     if flavour == "stream":
@@ -61,6 +88,7 @@ def build_rinklecate():
         return _built["rinklecate"]
     env = dict(os.environ, CARGO_NET_OFFLINE="true")
     tdir = os.path.join(HARNESS, "target-cli")
+    force_rebuild_if_sources_changed("cli")
     p = subprocess.run(["cargo", "build", "--offline", "--quiet", "-p", "rinklecate", "--target-dir", tdir],
                        cwd=REPO, env=env, capture_output=True, text=True)
     if p.returncode != 0:
